@@ -10,3 +10,4 @@ ASSUMPTIONS = ["no fixture directory is opened; a leftover WAL is TB-sqlite"]
 def run(rep, W, ctx):
     WR.S.s_sql_closed(rep, W)
     WR.c19(rep, W, ctx)
+    WR.c13_reopen(rep, W, rule="C19.OPEN")     # opening an existing data directory is idempotent and non-destructive
